@@ -46,8 +46,8 @@ def _group(name):
 
 
 @st.composite
-def decorated(draw, params):
-    """-> (text, newline, classes)"""
+def decorated(draw, params, prefer_dup=()):
+    """-> (text, newline, classes); `prefer_dup`: names whose line gets a repeated earlier occurrence in most cases"""
     n = len(params)
     classes = set()
     # permutation preserving relative order inside each group
@@ -66,19 +66,28 @@ def decorated(draw, params):
     lines = []
     # duplicate insertion: earlier line with another valid value for a name that appears later
     dup_at = {}
-    if draw(st.booleans()):
-        for _ in range(draw(st.integers(1, 3))):
-            pos = draw(st.integers(0, n - 1))
+    forced = [k for k in range(n) if params[perm[k]][0] in prefer_dup] if prefer_dup and draw(st.integers(0, 3)) != 0 else []
+    if forced or draw(st.booleans()):
+        for t in range(draw(st.integers(1, 3))):
+            pos = forced[t % len(forced)] if forced and t < len(forced) else draw(st.integers(0, n - 1))
             name, value = params[perm[pos]]
             if _group(name) == 'addon' or name in ('Reservoir Model', 'End-Use Option', 'Power Plant Type', 'Economic Model',
                                                    'Do AddOn Calculations', 'Do S-DAC-GT Calculations', 'Is AGS'):
                 continue  # option switches decide which modules are built while the file is still being read: keep a single value
             if value.lstrip('-').isdigit():
                 continue
-            try:
-                alt = gen.fmt(float(value) * 0.5 + 0.123)
-            except ValueError:
-                continue
+            if name in ('Gradients', 'Thicknesses'):
+                # list-valued line repeated: same first element, other tail (the last occurrence governs as a whole)
+                parts = [x.strip() for x in value.split(',')]
+                if len(parts) < 2:
+                    continue
+                alt = ', '.join([parts[0]] + [gen.fmt(round(float(x) * 0.5 + 0.123, 4)) for x in parts[1:]])
+                classes.add('duplicate_list_line')
+            else:
+                try:
+                    alt = gen.fmt(float(value) * 0.5 + 0.123)
+                except ValueError:
+                    continue
             dup_at.setdefault(draw(st.integers(0, pos)), []).append([name, alt])
             classes.add('duplicate')
     for k, idx in enumerate(perm):
@@ -97,6 +106,8 @@ def decorated(draw, params):
         if any(c in line for c in '\t') or line != f'{name},{value}' and line != f'{name}, {value}':
             classes.add('whitespace')
         k2 = draw(st.integers(0, 4))
+        if name in ('Gradients', 'Thicknesses') and k2 == 0:
+            k2 = 1  # after a list value only the '--' comment form is a comment (further comma fields are list entries)
         if k2 == 0:
             line += ',' + ws() + draw(st.sampled_from(COMMENT_TEXT))
             classes.add('trailing_comment')
@@ -122,8 +133,26 @@ def decorated(draw, params):
 def layout_cases(draw, tier):
     base = draw(gen.configs(reservoirs=('4', '3'), slow_fraction=0.0, addons=0.15, costs=True, prices=True, examples=0.2))
     params = [p for p in base['params']]
-    text, classes = draw(decorated(params))
-    return {'kind': 'layout', 'family': base['family'], 'params': params, 'text': text, 'classes': classes}
+    extra = []
+    k = draw(st.integers(0, 9))
+    if k == 0 and not base['family'].startswith('example:'):
+        # the temperature profile in its list spelling
+        nseg = draw(st.integers(2, 4))
+        params = [p for p in params if not (p[0].startswith('Gradient ') or p[0].startswith('Thickness ') or p[0] in ('Gradients', 'Thicknesses'))]
+        params = gen.merge(params, [['Number of Segments', str(nseg)],
+                                    ['Gradients', ', '.join(gen.fmt(draw(gen.nice_floats(20, 80))) for _ in range(nseg))],
+                                    ['Thicknesses', ', '.join(gen.fmt(draw(gen.nice_floats(0.3, 1.5))) for _ in range(nseg - 1))]])
+        extra.append('list_style_profile')
+    elif k == 1:
+        # extensions switched on by the mere presence of their parameters (no explicit 'Do AddOn Calculations' line), both at once
+        names = set(p[0] for p in params)
+        if not any(n.startswith('AddOn ') for n in names):
+            params = gen.merge(gen.drop_param(params, 'Construction Years'), [q for q in gen.ADDONS if q[0] != 'Do AddOn Calculations'])
+        params = gen.drop_param(params, 'Do AddOn Calculations')
+        params = gen.merge(params, [['Do S-DAC-GT Calculations', 'True'], ['S-DAC-GT CAPEX', gen.fmt(draw(gen.nice_floats(800, 2000)))]])
+        extra.append('extensions_auto_detected')
+    text, classes = draw(decorated(params, prefer_dup=('Gradients', 'Thicknesses') if 'list_style_profile' in extra else ()))
+    return {'kind': 'layout', 'family': base['family'], 'params': params, 'text': text, 'classes': sorted(set(classes) | set(extra))}
 
 
 def snap_equal(a, b):
